@@ -147,6 +147,20 @@ func ruleC13For(c *Ctx, sub *ssa.Function, do, rr, pm *ssa.Call, first bool) {
 	okResp := false
 	if rc := asCall(a[0]); rc != nil {
 		okF := vFieldLoadO(runtimeT, "response")(rc.Call.Value)
+		if !okF {
+			// r.response with the default adapter as the fallback for a nil field
+			nF, okAll := 0, true
+			for _, o := range originsOf(rc.Call.Value) {
+				switch {
+				case vFieldLoad(runtimeT, "response", nil)(o.V):
+					nF++
+				case isFuncValue(o.V, "rt/client.newResponse"):
+				default:
+					okAll = false
+				}
+			}
+			okF = okAll && nF > 0
+		}
 		okA := len(rc.Call.Args) == 1 && isRes(rc.Call.Args[0])
 		okResp = okF && okA
 	}
